@@ -7,6 +7,7 @@ C15 - a displayed value or expression means the same as the source expression.
   R15.5 truncation is always marked
   R15.6 control characters keep their value (shared with C10)
   R15.7 string arguments of Literal[...] are not unstringed, whatever the qualifier of Literal
+  R15.10 regex display: every component the regex parser stores in a node is read by the serializer; a branch with siblings is delimited
   R15.9 an explicit (lowered) precedence is only forced onto positions where the grammar takes any expression unparenthesised
   R15.8 the plain-text rendering of a parsed value collects the text leaf by leaf, never with document.astext()
 Does not decide: precedence values (astor's table is trusted), string/number spelling, line-length arithmetic.
@@ -496,6 +497,62 @@ def run(repo: Repo, chk: Check, thorough: bool = False) -> None:
            'Annotated is treated like any other subscript, every string in it is parsed as code: `Annotated[float, "meters"]` is displayed as '
            '`Annotated[float, meters]`, `Field(alias="id")` as `Field(alias=id)`', vs.loc)
     chk.require('R15.7', 2)
+
+    # ------------------------------------------------------------------ R15.10
+    # `re.compile(...)` values are displayed from the tree of the vendored regex parser (sre_parse36), not from the source text.  Writer/reader
+    # agreement: for every node kind whose argument is a tuple of n components in the parser, the branch of `_colorize_re_tree` that handles that kind
+    # reads all n of them (or iterates the tuple) - a component that is stored but never read is dropped from the display (`(?i:a)b` -> `(?:a)b`)
+    sp_mod = repo.mod('pydoctor.epydoc.sre_parse36')
+    arity: Dict[str, int] = {}
+    for n in ast.walk(sp_mod.tree):
+        if isinstance(n, ast.Call) and len(n.args) == 1 and isinstance(n.args[0], ast.Tuple) and \
+                len(n.args[0].elts) == 2 and isinstance(n.args[0].elts[0], ast.Name) and n.args[0].elts[0].id.isupper() and isinstance(n.args[0].elts[1], ast.Tuple):
+            arity[n.args[0].elts[0].id] = max(arity.get(n.args[0].elts[0].id, 0), len(n.args[0].elts[1].elts))
+    if len(arity) < 4:
+        raise AnalysisError(f'R15.10: {len(arity)} tuple-valued node kinds found in sre_parse36 (BRANCH, GROUPREF_EXISTS, RANGE, ASSERT, ASSERT_NOT, SUBPATTERN confirmed)')
+    rt = repo.func(f'{COL}._colorize_re_tree')
+    argv = None
+    treep = rt.params()[1].arg
+    elts = {lp.target.id for lp in rt.walk() if isinstance(lp, ast.For) and isinstance(lp.iter, ast.Name) and lp.iter.id == treep and isinstance(lp.target, ast.Name)}
+    for n in rt.walk():
+        if isinstance(n, ast.Assign) and isinstance(n.value, ast.Subscript) and isinstance(n.value.slice, ast.Constant) and n.value.slice.value == 1 and \
+                isinstance(n.value.value, ast.Name) and n.value.value.id in elts and isinstance(n.targets[0], ast.Name):
+            argv = n.targets[0].id
+    if argv is None:
+        raise AnalysisError('R15.10: the local holding the node argument (elt[1]) was not found in _colorize_re_tree')
+    n510 = 0
+    for n in rt.walk():
+        if not isinstance(n, ast.If):
+            continue
+        kinds = {x.attr for x in ast.walk(n.test) if isinstance(x, ast.Attribute) and x.attr in arity}
+        if not kinds:
+            continue
+        idx = {x.slice.value for st in n.body for x in ast.walk(st) if isinstance(x, ast.Subscript) and isinstance(x.value, ast.Name) and x.value.id == argv and
+               isinstance(x.slice, ast.Constant) and isinstance(x.slice.value, int)}
+        whole = any(isinstance(x, (ast.For, ast.comprehension)) and isinstance(x.iter, ast.Name) and x.iter.id == argv for st in n.body for x in ast.walk(st)) or \
+            any(isinstance(x, ast.Call) and any(isinstance(a, ast.Name) and a.id == argv for a in x.args) for st in n.body for x in ast.walk(st))
+        for k in sorted(kinds):
+            n510 += 1
+            missing = [i for i in range(arity[k]) if i not in idx]
+            ok10 = whole or not missing
+            chk.ob('R15.10', f'{COL}._colorize_re_tree :: every component of a {k} node is read', ok10,
+                   f'{arity[k]} component(s), all read' if ok10 else
+                   f'the parser stores {arity[k]} components in a {k} node, component(s) {missing} are never read: what they say is dropped from the displayed '
+                   'expression (inline flags of a group: `(?i:a)b` is shown as `(?:a)b`, a different expression)', repo.loc(rt.mod, n))
+    if n510 < 4:
+        raise AnalysisError(f'R15.10: {n510} tuple-valued node kinds handled by _colorize_re_tree found (5 confirmed)')
+    # the parser factors a common prefix out of the alternatives (`abc|ade` -> a, BRANCH(bc, de)): a BRANCH can have siblings in its sequence, and
+    # `|` binds weaker than juxtaposition - so the serializer has to delimit a branch (a group opener emitted in the BRANCH case)
+    brs = [n for n in rt.walk() if isinstance(n, ast.If) and any(isinstance(x, ast.Attribute) and x.attr == 'BRANCH' for x in ast.walk(n.test))]
+    if not brs:
+        raise AnalysisError('R15.10: the BRANCH case of _colorize_re_tree was not found')
+    for n in brs:
+        opens = any(isinstance(x, ast.Constant) and isinstance(x.value, str) and x.value.startswith('(') for st in n.body for x in ast.walk(st))
+        chk.ob('R15.10', f'{COL}._colorize_re_tree :: a branch with siblings is delimited', opens,
+               'a group opener is written in the BRANCH case' if opens else
+               'the alternatives are written bare, joined with `|`: for `abc|ade` the parser yields `a` followed by BRANCH(bc, de), displayed as `abc|de`, which '
+               'matches "de" and not "ade"', repo.loc(rt.mod, n))
+    chk.require('R15.10', 5)
 
     # ------------------------------------------------------------------ R15.9
     # `_set_precedence(P, child)` tells the parenthesis decision that `child` sits in a delimited position, so operators down to precedence P are
